@@ -101,6 +101,11 @@ func engCaseFromReplay(path string) (*engCase, map[string]any, error) {
 			ec.Resumes = append(ec.Resumes, x.(string))
 		}
 	}
+	if rs, ok := d["refresh"].([]any); ok {
+		for _, x := range rs {
+			ec.Refresh = append(ec.Refresh, x.(string))
+		}
+	}
 	for _, f := range ga.Flows {
 		if f.Type == "voice" && f == ga.Flows[ec.StartFlow] {
 			ec.Voice = true
